@@ -54,15 +54,17 @@ def _gen(n, m, j, kind="plain"):
 
 
 def _data(v):
-    """Variants: A (larger), B (smaller, other width), with 1-D and 2-D targets."""
+    """Variants: A (larger), B (smaller, other width), C (the shape of A, other data), with 1-D and 2-D targets."""
     if v.startswith("A"):
         X = _gen(8, 4, 1, "centered")
+    elif v.startswith("C"):
+        X = _gen(8, 4, 7, "centered")
     else:
         X = _gen(6, 5, 2, "centered")
     n = len(X)
-    y1 = np.array(fam.generic_vec(n, 0, 3 if v.startswith("A") else 4), float)
+    y1 = np.array(fam.generic_vec(n, 0, {"A": 3, "B": 4, "C": 8}[v[0]]), float)
     y1 -= y1.mean()
-    Y2 = np.array(fam.generic_vec(n, 0, 5 if v.startswith("A") else 6, 2), float)
+    Y2 = np.array(fam.generic_vec(n, 0, {"A": 5, "B": 6, "C": 9}[v[0]], 2), float)
     Y2 -= Y2.mean(axis=0)
     return X, y1, Y2
 
@@ -118,6 +120,12 @@ def _sel_entry(kind, direction):
     )
 
 
+def _with(est, **params):
+    for k, v in params.items():
+        setattr(est, k, v)
+    return est
+
+
 def _catalogue():
     from sklearn.kernel_ridge import KernelRidge
     from sklearn.linear_model import Ridge
@@ -137,6 +145,13 @@ def _catalogue():
         for d in ("sample", "feature"):
             E.append(_sel_entry(kind, d))
     E.append(_sel_entry("VoronoiFPS", "sample"))
+    for d in ("sample", "feature"):
+        for kind in ("CUR", "PCovCUR"):
+            e2 = _sel_entry(kind, d)
+            e2["name"] = "%s/%s/recompute_every=2" % (kind, d)
+            mk = e2["make"]
+            e2["make"] = lambda a, mk=mk: _with(mk(a), recompute_every=2)
+            E.append(e2)
 
     # ---- DirectionalConvexHull
     def dch_args(v):
@@ -171,6 +186,19 @@ def _catalogue():
             methods=[("transform", lambda e, a: e.transform(a["X"])), ("predict", lambda e, a: e.predict(a["X"])), ("score", lambda e, a: e.score(a["X"], a["Y"])),
                      ("inverse_transform", lambda e, a: e.inverse_transform(e.transform(a["X"])))],
             histories=[("A", "A"), ("A", "B"), ("B", "A"), ("A", "A-y1d")], int_ok=set(),
+        ))
+
+    def kpre_args(v):
+        X, y1, Y2 = _data(v)
+        Xt = X[:3] * 0.5 + 0.25
+        return {"K": (X @ X.T + 1.0) ** 2, "Kt": (Xt @ X.T + 1.0) ** 2, "Y": Y2}
+    for center in (False, True):
+        E.append(dict(
+            name="KernelPCovR/precomputed/center=%s" % center, args=kpre_args,
+            make=lambda a, center=center: KernelPCovR(mixing=0.5, n_components=2, kernel="precomputed", center=center, regressor=KernelRidge(alpha=1e-3, kernel="precomputed")),
+            fit=lambda e, a: e.fit(a["K"], a["Y"]),
+            methods=[("transform", lambda e, a: e.transform(a["K"])), ("transform-test", lambda e, a: e.transform(a["Kt"])), ("predict", lambda e, a: e.predict(a["Kt"])), ("score", lambda e, a: e.score(a["K"], a["Y"]))],
+            histories=[("A", "A"), ("A", "B"), ("B", "A")], int_ok=set(),
         ))
 
     # ---- scalers / kernel centerers
@@ -416,7 +444,10 @@ def cases(group):
             yield dict(kind="purity", entry=group["entry"], name=group["name"], layouts=dict(zip(names, combo)))
     elif group["kind"] == "history":
         e = _cat()[group["entry"]]
-        for h in e["histories"]:
+        hs = list(e["histories"])
+        if ("A", "B") in hs and not e.get("ctor_arrays"):
+            hs += [("A", "C"), ("C", "A")]  # same shape, other data: a cache keyed on the shape must not survive
+        for h in hs:
             yield dict(kind="history", entry=group["entry"], name=group["name"], hist=list(h))
     else:
         for answers in ([0] * 7, [1] * 7, [1, 0, 1, 0, 1, 0, 1]):
